@@ -280,6 +280,72 @@ def natural_count(ctor, case):
     return 1 + k
 
 
+# elements that are not Vars; the first group are containers *of Vars* (nothing may be spliced in)
+SEQ_OF_VARS = ["listOfVars", "tupleOfVars", "list1", "nested2", "genOfVars", "setOfVars", "dictOfVars", "ndarrayOfVars"]
+OTHER_NON_VARS = ["int", "none", "str", "float", "emptyList", "emptyTuple", "duck", "varClass"]
+BAD_ELEMS = SEQ_OF_VARS + OTHER_NON_VARS
+
+
+class _Duck:
+    """Looks like a Var, is not one."""
+
+    def __init__(self, v):
+        self.type, self._op, self._value, self._name = v.type, getattr(v, "_op", None), None, None
+
+    def unwrap_type(self):
+        return self.type
+
+
+def malformed_result(env, op, ctor, case, cb, args):
+    """An iterable whose element at position `pos` is not a Var. For the containers of Vars the
+    natural results are used and a slice of them is wrapped, e.g. `[cond, [u, v]]`."""
+    n = max(cb["n"], 1)
+    bad = cb.get("bad", ["int", "none", "str", "float"][cb.get("variant", 0) % 4])
+    vs = natural_results(env, op, ctor, case, args)
+    vs = vs + [op.const(0.0) for _ in range(n + 2 - len(vs))]
+    pos = cb.get("pos", cb.get("variant", 0)) % n
+    inner = vs[pos:pos + 2]
+    if bad == "listOfVars":
+        el, used = list(inner), 2
+    elif bad == "tupleOfVars":
+        el, used = tuple(inner), 2
+    elif bad == "list1":
+        el, used = [vs[pos]], 1
+    elif bad == "nested2":
+        el, used = [[vs[pos]]], 1
+    elif bad == "genOfVars":
+        el, used = (v for v in inner), 2
+    elif bad == "setOfVars":
+        el, used = set(inner), 2
+    elif bad == "dictOfVars":
+        el, used = {v: i for i, v in enumerate(inner)}, 2
+    elif bad == "ndarrayOfVars":
+        el = env.np.empty(len(inner), dtype=object)
+        for i, v in enumerate(inner):
+            el[i] = v
+        used = 2
+    else:
+        used = 1
+        el = {"int": 3, "none": None, "str": "x", "float": 1.5, "emptyList": [], "emptyTuple": (),
+              "duck": _Duck(vs[pos]), "varClass": env.Var}[bad]
+    rest = vs[pos + used:]
+    out = vs[:pos] + [el] + rest[: n - pos - 1]
+    outer = cb.get("outer", "list")
+    if outer == "tuple":
+        return tuple(out)
+    if outer == "gen":  # e.g. a generator yielding a list
+        return (x for x in out)
+    return out
+
+
+def elem_kinds(cb):
+    """What the model is told about a malformed result: the kind of each element."""
+    n = max(cb["n"], 1)
+    bad = cb.get("bad", "int")
+    pos = cb.get("pos", cb.get("variant", 0)) % n
+    return ["var"] * pos + ["seqOfVars" if bad in SEQ_OF_VARS else "nonVar"] + ["var"] * (n - pos - 1)
+
+
 def make_callback(env, op, ctor, case, role, rec, counters):
     cb = case["cbs"][role]
     beh, variant = cb["beh"], cb.get("variant", 0)
@@ -295,9 +361,7 @@ def make_callback(env, op, ctor, case, role, rec, counters):
             return [None, 5, op.const(1.0), 2.5][variant % 4]
         n = cb["n"]
         if beh == "hasNonVar":
-            vs = [op.const(1.0) for _ in range(max(n - 1, 0))]
-            vs.insert(variant % (len(vs) + 1), [3, None, "x", 1.5][variant % 4])
-            return vs
+            return malformed_result(env, op, ctor, case, cb, args)
         vs = natural_results(env, op, ctor, case, args)
         vs = vs[:n] + [op.const(0.0) for _ in range(n - len(vs))]
         cont = cb.get("container", "list")
@@ -307,11 +371,27 @@ def make_callback(env, op, ctor, case, role, rec, counters):
             return (v for v in vs)
         if cont == "map":
             return map(lambda v: v, vs)
-        if cont == "dictkeys":
+        if cont in ("dictkeys", "dict", "set"):
             uniq = []
-            for v in vs:  # a dict would merge a Var that occurs twice
+            for v in vs:  # a dict / set would merge a Var that occurs twice
                 uniq.append(op.identity(v) if any(v is u for u in uniq) else v)
-            return {v: i for i, v in enumerate(uniq)}.keys()
+            if cont == "set":
+                return set(uniq)
+            d_ = {v: i for i, v in enumerate(uniq)}
+            return d_ if cont == "dict" else d_.keys()
+        if cont == "ndarray":  # a numpy object array of Vars is an iterable of Vars
+            arr = env.np.empty(len(vs), dtype=object)
+            for i, v in enumerate(vs):
+                arr[i] = v
+            return arr
+        if cont == "varsubclass" and vs:  # an instance of a subclass of Var is a Var
+            try:
+                Sub = type("VarSub", (env.Var,), {})
+                last = vs[-1]
+                sub = Sub(last._op, last.type)
+                return vs[:-1] + [sub]
+            except Exception:  # noqa: BLE001
+                return vs
         return vs
 
     return fun
@@ -702,6 +782,8 @@ def model_request(case, steps):
     for role, i in cb_ids(case).items():
         c = case["cbs"][role]
         cbs[role] = {"id": i, "beh": c["beh"], "n": c.get("n", 0)}
+        if c["beh"] == "hasNonVar":
+            cbs[role]["elems"] = elem_kinds(c)
     return {
         "repeat": case.get("repeat", 1),
         "mod": case["mod"], "ctor": case["ctor"], "lists": case.get("lists", {}),
@@ -946,8 +1028,33 @@ def gen_cases(ck, info):
                 cbs[r2]["n"] = n
         else:
             cbs[r] = {"beh": kind, "n": rng.randrange(1, 4), "variant": rng.randrange(4)}
+            if kind == "hasNonVar":
+                cbs[r].update(bad=rng.choice(BAD_ELEMS), pos=rng.randrange(3), outer=rng.choice(["list", "tuple", "gen"]))
         c["cbs"] = cbs
         cases.append(c)
+    # every kind of non-Var element, at every position, in every outer container, for every constructor
+    for mod_ctor in sorted({(c["mod"], c["ctor"]) for c in base}):
+        sub = [c for c in base if (c["mod"], c["ctor"]) == mod_ctor and all_good(c) and c.get("rel", "same") == "same"
+               and "repeat" not in c]
+        sub = [c for c in sub if natural_count(c["ctor"], c) >= 3] or sub
+        if not sub:
+            continue
+        for bad in BAD_ELEMS:
+            for pos in range(3):
+                c = dict(rng.choice(sub))
+                roles = list(c["cbs"])
+                cbs = {r2: dict(c["cbs"][r2]) for r2 in roles}
+                r = roles[(pos + len(bad)) % len(roles)]
+                cbs[r] = {"beh": "hasNonVar", "n": 3, "bad": bad, "pos": pos,
+                          "outer": ["list", "tuple", "gen"][(pos + len(bad)) % 3]}
+                c["cbs"] = cbs
+                cases.append(c)
+        # all-Var results in unusual containers: they count
+        for cont in ["dict", "set", "ndarray", "varsubclass"]:
+            for _ in range(2):
+                c = dict(rng.choice(sub))
+                c["cbs"] = {r2: dict(c["cbs"][r2], container=cont) for r2 in c["cbs"]}
+                cases.append(c)
     return cases
 
 
@@ -1259,6 +1366,9 @@ def _run(ck: core.Check, env: Env, info):
             stats["step_errors"][f"{st}:{en}"] = stats["step_errors"].get(f"{st}:{en}", 0) + 1
         for c in case["cbs"].values():
             stats["behaviours"][c["beh"]] = stats["behaviours"].get(c["beh"], 0) + 1
+            if c["beh"] == "hasNonVar":
+                bk = c.get("bad", "scalar")
+                stats.setdefault("bad_elements", {})[bk] = stats.setdefault("bad_elements", {}).get(bk, 0) + 1
             if c["beh"] == "vars":
                 stats["containers"][c.get("container")] = stats["containers"].get(c.get("container"), 0) + 1
         if len(ck.samples) < 4 and nops >= 2:
